@@ -40,14 +40,15 @@ LabelOK(lines, nd) ==
     BlockOK(lines, [r \in 1..Len(nd.m) |-> ValsOf(nd.m[r])], ValsOf(nd.b), nd.q, 2, IF nd.leaf THEN DefaultFunc ELSE DefaultPoly, ~nd.leaf)
 EdgesOf(tr) == {x \in {<<tr.nodes[n].i, s - 1, tr.nodes[n].ch[s]>> : n \in 1..Len(tr.nodes), s \in 1..Len(tr.nodes[1].ch)} : x[3] # -1}
 Idxs(tr) == {tr.nodes[n].i : n \in 1..Len(tr.nodes)}
+NoDot(e) == "nodot" \in DOMAIN e /\ e.nodot          \* DOT export exists for binary trees only (K = 4 events carry the Display text alone)
 CheckTree(e) ==
     LET tr == e.tree IN
     /\ V("C19", e, e.res = "ok", "Display / Dot of a tree panicked", "tree/panic")
-    /\ V("C19", e, Len(e.dot_nodes) = Len(tr.nodes) /\ {e.dot_nodes[n].idx : n \in 1..Len(e.dot_nodes)} = Idxs(tr),
+    /\ V("C19", e, NoDot(e) \/ (Len(e.dot_nodes) = Len(tr.nodes) /\ {e.dot_nodes[n].idx : n \in 1..Len(e.dot_nodes)} = Idxs(tr)),
          "DOT output does not contain exactly one node statement per node", "dot/nodes")
     /\ V("C19", e, \A n \in 1..Len(e.dot_nodes) : e.dot_nodes[n].idx \in Idxs(tr) => LabelOK(e.dot_nodes[n].lines, NodeOf(tr, e.dot_nodes[n].idx)),
          "a DOT node statement is not labelled with the node's own function / predicate", "dot/label")
-    /\ V("C19", e, Len(e.dot_edges) = Len(tr.nodes) - 1 /\ {<<e.dot_edges[n].src, e.dot_edges[n].label, e.dot_edges[n].dst>> : n \in 1..Len(e.dot_edges)} = EdgesOf(tr),
+    /\ V("C19", e, NoDot(e) \/ (Len(e.dot_edges) = Len(tr.nodes) - 1 /\ {<<e.dot_edges[n].src, e.dot_edges[n].label, e.dot_edges[n].dst>> : n \in 1..Len(e.dot_edges)} = EdgesOf(tr)),
          "DOT output does not contain exactly one edge statement per edge with its label", "dot/edges")
     /\ V("C19", e, Len(e.disp_nodes) = Len(tr.nodes) /\ {e.disp_nodes[n].idx : n \in 1..Len(e.disp_nodes)} = Idxs(tr),
          "Display output does not contain exactly one entry per node", "display/nodes")
